@@ -27,7 +27,42 @@ def act_layer(rng, allow_poly):
     return l
 
 
+def gen_coincide(rng, cid):
+    """Family in which pre-activations of example and reference coincide EXACTLY (in rationals) without being bit-identical in
+    floating point: non-dyadic first-layer weights (k/10, k/3), a 1x1 convolution averaged over the whole length, and references
+    that are permutations of the example.  The rescale rule must then use the derivative (inputs coincide)."""
+    A = rng.choice([3, 4]); L = rng.randint(5, 9)
+    C = rng.randint(1, 3)
+    den = rng.choice([10, 3, 7])
+    # a large bias (|z| ~ 20-40) makes the summation round-off of the two halves differ by more than a few machine epsilons
+    big = rng.choice([-1, 1]) * rng.randint(20 * den, 40 * den)
+    act = act_layer(rng, True)
+    if act["g"] == "cube":
+        act["g"] = "sq"                       # keeps TLC's 32-bit rationals in range
+    if act["g"] in ("relu6", "shrink"):
+        act = dict(k="act", g="leaky", cls="LeakyReLU", slope=[1, 4], lam=0)
+    layers = [dict(k="conv", W=rand_w(rng, (C, A, 1), -9, 9), b=[big + v for v in rand_w(rng, (C,), -5, 5)], stride=1, dil=1, pad=0, ws=[1, den]),
+              dict(k="avgpool", size=L), dict(k="flatten"), act]
+    units = rng.randint(1, 2)
+    layers.append(dict(k="linear", W=rand_w(rng, (units, C)), b=rand_w(rng, (units,), -1, 1), ws=[1, 1]))
+    for l in layers:
+        l.setdefault("W", []); l.setdefault("b", []); l.setdefault("ws", [1, 1]); l.setdefault("stride", 1)
+        l.setdefault("dil", 1); l.setdefault("pad", 0); l.setdefault("size", 1); l.setdefault("g", ""); l.setdefault("cls", "")
+        l.setdefault("slope", [0, 1]); l.setdefault("lam", 0)
+    x = [rng.randrange(A) for _ in range(L)]
+    refs = []
+    for _ in range(rng.randint(1, 3)):
+        r = list(x); rng.shuffle(r)
+        if rng.random() < 0.3:
+            r[rng.randrange(L)] = rng.randrange(A)
+        refs.append(r)
+    return dict(id=cid, A=A, x=x, refs=refs, refmode="tensor", nref=len(refs), target=rng.randrange(units), layers=layers,
+                hyp=rng.random() < 0.5, bs=rng.randint(1, len(refs) + 1), seed=rng.randrange(1000), nout=units, affine=False, coincide=True)
+
+
 def gen_case(rng, cid, allow_maxpool=True):
+    if rng.random() < 0.15:
+        return gen_coincide(rng, cid)
     A = rng.choice([2, 3, 4, 4])
     L = rng.randint(4, 10)
     layers = []
